@@ -1,47 +1,18 @@
 (* C20 — Persisted and transmitted state round-trips without loss.
-   Property theorems only; the generic proofs are in Proofs/CodecProofs.v. Every obligation
-   below is about the GENERATED table Gen/Mirrors.v (read from the Go sources on every run):
-   a field added to a struct but forgotten in its mirror or in one of the two conversion
-   functions makes [roundtrip_ok] evaluate to false and the corresponding theorem fail. *)
+   Property theorems only; the generic proofs are in Proofs/CodecProofs.v (reflection theorem
+   roundtrip_sound) and Proofs/CodecGen.v (the chain of pairs over the generated table). Every
+   obligation below is about the GENERATED table Gen/Mirrors.v (read from the Go sources on every
+   run): a field added to a struct but forgotten in its mirror or in one of the two conversion
+   functions makes [roundtrip_ok] evaluate to false and the corresponding obligation fail. *)
 From Coq Require Import String ZArith List Bool Lia.
 From DV Require Import Model.ByteEnc Gen.HashOrder Model.Hashes Model.CodecVocab Model.Codec
-  Proofs.HashesProofs Proofs.CodecProofs Gen.Mirrors.
+  Proofs.HashesProofs Proofs.CodecProofs Gen.Mirrors Proofs.CodecGen.
 Import ListNotations.
+Open Scope string_scope.
 Open Scope Z_scope.
 Open Scope list_scope.
-Open Scope string_scope.
-
-(* a verified pair of the generated table, with its well-formedness predicate and normaliser *)
-Definition mk_vp (verified : list vpair) (a b : string) : vpair :=
-  match lookup mirrors a, lookup mirrors b with
-  | Some enc, Some dec => (a, b, wf_rec verified enc dec, norm_rec verified enc dec)
-  | _, _ => (a, b, fun _ => False, fun r => r)
-  end.
-
-Definition V0 : list vpair := [].
-Definition vDistPublic := mk_vp V0 "DistPublic.TOML" "DistPublic.FromTOML".
-Definition vIdentityTOML := mk_vp V0 "Identity.TOML" "Identity.FromTOML".
-Definition vIdentityProto := mk_vp V0 "Identity.ToProto" "IdentityFromProto".
-Definition vIdentityProtoInl := mk_vp V0 "Group.ToProto#ids#Public" "IdentityFromProto".
-Definition vPair := mk_vp V0 "Pair.TOML" "Pair.FromTOML".
-Definition vShare := mk_vp V0 "Share.TOML" "Share.FromTOML".
-Definition V1 : list vpair := [vIdentityTOML; vIdentityProtoInl].
-Definition vNodeTOML := mk_vp V1 "Node.TOML" "Node.FromTOML".
-Definition vNodeProto := mk_vp V1 "Group.ToProto#ids" "NodeFromProto".
-Definition V2 : list vpair := [vNodeTOML; vNodeProto; vDistPublic].
-Definition vGroupTOML := mk_vp V2 "Group.TOML" "Group.FromTOML".
-Definition vGroupProto := mk_vp V2 "Group.ToProto" "GroupFromProto".
-Definition V3 : list vpair := [vGroupTOML; vShare].
-Definition vDBState := mk_vp V3 "DBState.TOML" "DBStateTOML.FromTOML".
-Definition vInfoProto := mk_vp V0 "Info.ToProto" "InfoFromProto".
-Definition vInfoJSON := mk_vp V0 "Info.MarshalJSON" "Info.UnmarshalJSON".
-Definition vBeaconProto := mk_vp V0 "beaconToProto" "protoToBeacon".
-Definition vBeaconJSON := mk_vp V0 "Beacon.MarshalJSON" "Beacon.UnmarshalJSON".
 
 (* the per-run obligations: the generated conversions of each pair are mutually inverse, field by field *)
-Definition ok (verified : list vpair) (p : vpair) : bool :=
-  roundtrip_ok mirrors (vnames verified) (vp_a p) (vp_b p).
-
 Theorem C20_obl_DistPublic : ok V0 vDistPublic = true. Proof. vm_compute. reflexivity. Qed.
 Theorem C20_obl_Identity_TOML : ok V0 vIdentityTOML = true. Proof. vm_compute. reflexivity. Qed.
 Theorem C20_obl_Identity_proto : ok V0 vIdentityProto = true. Proof. vm_compute. reflexivity. Qed.
@@ -58,82 +29,62 @@ Theorem C20_obl_Info_JSON : ok V0 vInfoJSON = true. Proof. vm_compute. reflexivi
 Theorem C20_obl_Beacon_proto : ok V0 vBeaconProto = true. Proof. vm_compute. reflexivity. Qed.
 Theorem C20_obl_Beacon_JSON : ok V0 vBeaconJSON = true. Proof. vm_compute. reflexivity. Qed.
 
-(* Library facts that enter as hypotheses (validated on every run by the codec engine):
-   time.ParseDuration inverts time.Duration.String, which never returns "". The TOML / JSON /
-   protobuf libraries are taken to transport the mirror structs unchanged. *)
-Definition dur_laws (dur_str : Z -> bytes) (parse_dur : bytes -> option Z) : Prop :=
-  (forall d, parse_dur (dur_str d) = Some d) /\ (forall d, dur_str d <> []).
-
-Definition sound (ds : Z -> bytes) (pd : bytes -> option Z) (p : vpair) : Prop :=
-  pair_sound ds pd mirrors (vp_a p) (vp_b p) (vp_P p) (vp_R p).
-
-Section RoundTrips.
-  Variables (ds : Z -> bytes) (pd : bytes -> option Z).
-  Hypothesis laws : dur_laws ds pd.
-
-  Lemma mk_vp_sound : forall verified a b,
-    (forall p, In p verified -> sound ds pd p) ->
-    roundtrip_ok mirrors (vnames verified) a b = true -> sound ds pd (mk_vp verified a b).
-  Proof.
-    intros verified a b HV OK. unfold sound, mk_vp.
-    destruct (lookup mirrors a) as [enc|] eqn:La; [|unfold roundtrip_ok in OK; rewrite La in OK; discriminate].
-    destruct (lookup mirrors b) as [dec|] eqn:Lb; [|unfold roundtrip_ok in OK; rewrite La, Lb in OK; discriminate].
-    destruct laws as [L1 L2]. simpl. apply (roundtrip_sound ds pd L1 L2 mirrors verified HV a b enc dec La Lb OK).
-  Qed.
-
-  Lemma all_sound : forall l : list vpair, Forall (sound ds pd) l -> forall p, In p l -> sound ds pd p.
-  Proof. intros l F p I. rewrite Forall_forall in F. auto. Qed.
-
-  Lemma sound_V0 : forall p, In p V0 -> sound ds pd p. Proof. intros p []. Qed.
-  Lemma s_DistPublic : sound ds pd vDistPublic. Proof. apply mk_vp_sound; [exact sound_V0 | exact C20_obl_DistPublic]. Qed.
-  Lemma s_Identity_TOML : sound ds pd vIdentityTOML. Proof. apply mk_vp_sound; [exact sound_V0 | exact C20_obl_Identity_TOML]. Qed.
-  Lemma s_Identity_proto : sound ds pd vIdentityProto. Proof. apply mk_vp_sound; [exact sound_V0 | exact C20_obl_Identity_proto]. Qed.
-  Lemma s_Identity_proto_inl : sound ds pd vIdentityProtoInl. Proof. apply mk_vp_sound; [exact sound_V0 | exact C20_obl_Identity_proto_inline]. Qed.
-  Lemma s_Pair : sound ds pd vPair. Proof. apply mk_vp_sound; [exact sound_V0 | exact C20_obl_Pair]. Qed.
-  Lemma s_Share : sound ds pd vShare. Proof. apply mk_vp_sound; [exact sound_V0 | exact C20_obl_Share]. Qed.
-  Lemma sound_V1 : forall p, In p V1 -> sound ds pd p.
-  Proof. apply all_sound. repeat constructor; [exact s_Identity_TOML | exact s_Identity_proto_inl]. Qed.
-  Lemma s_Node_TOML : sound ds pd vNodeTOML. Proof. apply mk_vp_sound; [exact sound_V1 | exact C20_obl_Node_TOML]. Qed.
-  Lemma s_Node_proto : sound ds pd vNodeProto. Proof. apply mk_vp_sound; [exact sound_V1 | exact C20_obl_Node_proto]. Qed.
-  Lemma sound_V2 : forall p, In p V2 -> sound ds pd p.
-  Proof. apply all_sound. repeat constructor; [exact s_Node_TOML | exact s_Node_proto | exact s_DistPublic]. Qed.
-  Lemma s_Group_TOML : sound ds pd vGroupTOML. Proof. apply mk_vp_sound; [exact sound_V2 | exact C20_obl_Group_TOML]. Qed.
-  Lemma s_Group_proto : sound ds pd vGroupProto. Proof. apply mk_vp_sound; [exact sound_V2 | exact C20_obl_Group_proto]. Qed.
-  Lemma sound_V3 : forall p, In p V3 -> sound ds pd p.
-  Proof. apply all_sound. repeat constructor; [exact s_Group_TOML | exact s_Share]. Qed.
-  Lemma s_DBState : sound ds pd vDBState. Proof. apply mk_vp_sound; [exact sound_V3 | exact C20_obl_DBState]. Qed.
-  Lemma s_Info_proto : sound ds pd vInfoProto. Proof. apply mk_vp_sound; [exact sound_V0 | exact C20_obl_Info_proto]. Qed.
-  Lemma s_Info_JSON : sound ds pd vInfoJSON. Proof. apply mk_vp_sound; [exact sound_V0 | exact C20_obl_Info_JSON]. Qed.
-  Lemma s_Beacon_proto : sound ds pd vBeaconProto. Proof. apply mk_vp_sound; [exact sound_V0 | exact C20_obl_Beacon_proto]. Qed.
-  Lemma s_Beacon_JSON : sound ds pd vBeaconJSON. Proof. apply mk_vp_sound; [exact sound_V0 | exact C20_obl_Beacon_JSON]. Qed.
-End RoundTrips.
-
-Definition all_pairs : list vpair :=
-  [vDistPublic; vIdentityTOML; vIdentityProto; vIdentityProtoInl; vPair; vShare; vNodeTOML; vNodeProto;
-   vGroupTOML; vGroupProto; vDBState; vInfoProto; vInfoJSON; vBeaconProto; vBeaconJSON].
-
-(* For every pair (encoder a, decoder b) above and EVERY well-formed value r of the source type
-   (vp_P: exactly the source leaves, each meeting the precondition [cpre] of its class — whole
+(* For every pair (encoder a, decoder b) of [all_pairs] - DistPublic, Identity (TOML, protobuf),
+   Pair, Share, Node (TOML, protobuf), Group (TOML, protobuf), DBState (TOML), chain Info
+   (protobuf, JSON), Beacon (protobuf, JSON) - and EVERY well-formed value r of the source type
+   (vp_P: exactly the source leaves, each meeting the precondition [cpre] of its class: whole
    seconds for periods on the protobuf/JSON paths, thresholds within uint32, a known scheme, a
-   non-nil genesis seed, ...): encoding succeeds and decoding the result gives vp_R r, which is r
-   itself except for the stated normalisations [cres]: a beacon id is read back in canonical form
-   ("" becomes "default"), an identity's scheme is not transmitted on the protobuf path (it is
-   supplied by the decoder's caller), and a key pair's public identity is stored in a file of its
-   own (only its scheme is restored from the private file). *)
+   non-nil non-empty genesis seed, byte strings nil or non-empty where the code tests for
+   emptiness): encoding succeeds and decoding the result gives vp_R r, which is r itself except
+   for the stated normalisations [cres]: a beacon id is read back in canonical form ("" becomes
+   "default"), an identity's scheme is not transmitted on the protobuf path (it is supplied by
+   the decoder's caller), and a key pair's public identity is stored in a file of its own (only
+   its scheme is restored from the private file).
+   Library facts that enter as hypotheses ([dur_laws]; validated on every run by the codec
+   engine): time.ParseDuration inverts time.Duration.String, which never returns "". The TOML /
+   JSON / protobuf libraries are taken to transport the mirror structs unchanged. *)
 Theorem C20_roundtrip : forall ds pd, dur_laws ds pd ->
   forall p, In p all_pairs -> forall r, vp_P p r ->
   exists r1, den ds pd mirrors (vp_a p) r = Some r1 /\ den ds pd mirrors (vp_b p) r1 = Some (vp_R p r).
 Proof.
-  intros ds pd L p I. simpl in I.
-  repeat (destruct I as [<-|I];
-    [first [exact (s_DistPublic ds pd L) | exact (s_Identity_TOML ds pd L) | exact (s_Identity_proto ds pd L)
-           | exact (s_Identity_proto_inl ds pd L) | exact (s_Pair ds pd L) | exact (s_Share ds pd L)
-           | exact (s_Node_TOML ds pd L) | exact (s_Node_proto ds pd L) | exact (s_Group_TOML ds pd L)
-           | exact (s_Group_proto ds pd L) | exact (s_DBState ds pd L) | exact (s_Info_proto ds pd L)
-           | exact (s_Info_JSON ds pd L) | exact (s_Beacon_proto ds pd L) | exact (s_Beacon_JSON ds pd L)] |]).
-  contradiction.
+  intros ds pd L.
+  exact (roundtrip_all ds pd L C20_obl_DistPublic C20_obl_Identity_TOML C20_obl_Identity_proto
+    C20_obl_Identity_proto_inline C20_obl_Pair C20_obl_Share C20_obl_Node_TOML C20_obl_Node_proto
+    C20_obl_Group_TOML C20_obl_Group_proto C20_obl_DBState C20_obl_Info_proto C20_obl_Info_JSON
+    C20_obl_Beacon_proto C20_obl_Beacon_JSON).
 Qed.
 Print Assumptions C20_roundtrip.
+
+(* a round trip does not change the hash: the group read back from its file or from a protobuf
+   packet has the group hash of the original (the hashed projection survives the normalisations);
+   chain infos come back unchanged (C17_paths_agree) *)
+Theorem C20_hash_preserved : forall ds pd H256 Hb, dur_laws ds pd ->
+  forall p, In p [vGroupTOML; vGroupProto] -> forall r, vp_P p r ->
+  exists r1 r2, den ds pd mirrors (vp_a p) r = Some r1 /\ den ds pd mirrors (vp_b p) r1 = Some r2 /\ group_hash H256 Hb (group_of_record r2) = group_hash H256 Hb (group_of_record r).
+Proof.
+  intros ds pd H256 Hb L p I r P.
+  assert (IA : In p all_pairs) by (simpl in I; destruct I as [<-|[<-|[]]]; simpl; auto 20).
+  destruct (C20_roundtrip ds pd L p IA r P) as [r1 [E1 E2]].
+  exists r1, (vp_R p r). repeat split; auto. apply group_hash_preserved; auto.
+Qed.
+Print Assumptions C20_hash_preserved.
+
+(* non-vacuity of C20_roundtrip: a well-formed beacon and what the model computes for it *)
+Definition ex_beacon : record :=
+  [(["PreviousSig"], VNil); (["Round"], VInt 7); (["Signature"], VBytes [1; 2; 255])].
+Example C20_roundtrip_nonvacuous :
+  vp_P vBeaconJSON ex_beacon /\ In vBeaconJSON all_pairs /\
+  den (fun _ => []) (fun _ => None) mirrors "Beacon.MarshalJSON" ex_beacon =
+    Some [(["previous_signature"], VNil); (["round"], VInt 7); (["signature"], VBytes [48; 49; 48; 50; 102; 102])].
+Proof.
+  split; [|split; [simpl; auto 20 | vm_compute; reflexivity]].
+  split; [reflexivity|]. split; [repeat constructor; simpl; intuition; discriminate|].
+  intros leaf c v LC G. unfold ex_beacon in G. cbn [get] in G.
+  destruct (path_eqb ["PreviousSig"] leaf) eqn:E1; [apply path_eqb_eq in E1; subst; injection G as <-; vm_compute in LC; injection LC as <-; simpl; auto|].
+  destruct (path_eqb ["Round"] leaf) eqn:E2; [apply path_eqb_eq in E2; subst; injection G as <-; vm_compute in LC; injection LC as <-; simpl; auto|].
+  destruct (path_eqb ["Signature"] leaf) eqn:E3; [apply path_eqb_eq in E3; subst; injection G as <-; vm_compute in LC; injection LC as <-; exists [1; 2; 255]; split; reflexivity|].
+  discriminate G.
+Qed.
 
 (* ---- fields of a mirror struct that no conversion writes / reads (stated, so that a new one
         is noticed): DBStateTOML.TransitionTime and ShareTOML.PrivatePoly have no source ---- *)
@@ -148,19 +99,9 @@ Theorem C20_fields_without_source :
 Proof. vm_compute. repeat split; reflexivity. Qed.
 
 (* ---- decode-side checks ---- *)
-Lemma check_in_rejects : forall hp hs d r c, In c (m_checks d) -> chk_rejects hp hs r c = true ->
-  checks_reject hp hs d r = true.
-Proof. intros. unfold checks_reject. apply existsb_exists. eauto. Qed.
-
 Section Decode.
   Variables (ds : Z -> bytes) (pd : bytes -> option Z) (hp : bytes -> bool) (hs : bytes).
   Notation dec := (decode ds pd hp hs mirrors).
-
-  Lemma decode_reject : forall name d r c, lookup mirrors name = Some d -> In c (m_checks d) ->
-    chk_rejects hp hs r c = true -> dec name r = None.
-  Proof.
-    intros. unfold decode. eapply den_chk_reject; eauto. eapply check_in_rejects; eauto.
-  Qed.
 
   Definition thr_out_of_range (thr : Z) (n : nat) : Prop :=
     thr < minimum_t (Z.of_nat n) \/ thr > Z.of_nat n.
@@ -171,10 +112,10 @@ Section Decode.
     thr_out_of_range thr (length nodes) -> dec "Group.FromTOML" r = None.
   Proof.
     intros r thr nodes HT HN [Lo|Hi].
-    - apply (decode_reject "Group.FromTOML" mir_Group_FromTOML r
+    - apply (decode_reject ds pd hp hs "Group.FromTOML" mir_Group_FromTOML r
         (ChkRejectIf RLt (CField ["Threshold"]) (CMinT (CLen ["Nodes"])))); [reflexivity | simpl; auto |].
       simpl. rewrite HT, HN. simpl. apply Z.ltb_lt. exact Lo.
-    - apply (decode_reject "Group.FromTOML" mir_Group_FromTOML r
+    - apply (decode_reject ds pd hp hs "Group.FromTOML" mir_Group_FromTOML r
         (ChkRejectIf RGt (CField ["Threshold"]) (CLen ["Nodes"]))); [reflexivity | simpl; auto |].
       simpl. rewrite HT, HN. simpl. apply Z.gtb_lt. lia.
   Qed.
@@ -184,7 +125,7 @@ Section Decode.
     dec "Group.FromTOML" r = None.
   Proof.
     intros r n HS Nn Hm.
-    apply (decode_reject "Group.FromTOML" mir_Group_FromTOML r (ChkScheme SchemeByID ["SchemeID"])); [reflexivity | simpl; auto |].
+    apply (decode_reject ds pd hp hs "Group.FromTOML" mir_Group_FromTOML r (ChkScheme SchemeByID ["SchemeID"])); [reflexivity | simpl; auto |].
     simpl. rewrite HS. destruct n; [congruence|]. simpl. simpl in Hm. rewrite Hm. reflexivity.
   Qed.
 
@@ -194,7 +135,7 @@ Section Decode.
     thr < minimum_t (Z.of_nat (length nodes)) -> dec "GroupFromProto" r = None.
   Proof.
     intros r thr nodes HT HN Lo.
-    apply (decode_reject "GroupFromProto" mir_GroupFromProto r
+    apply (decode_reject ds pd hp hs "GroupFromProto" mir_GroupFromProto r
       (ChkRejectIf RLt (CField ["Threshold"]) (CMinT (CLen ["Nodes"])))); [reflexivity | simpl; auto |].
     simpl. rewrite HT, HN. simpl. apply Z.ltb_lt. exact Lo.
   Qed.
@@ -204,7 +145,7 @@ Section Decode.
     dec "GroupFromProto" r = None.
   Proof.
     intros r n HS Hm.
-    apply (decode_reject "GroupFromProto" mir_GroupFromProto r (ChkScheme SchemeFromName ["SchemeID"])); [reflexivity | simpl; auto |].
+    apply (decode_reject ds pd hp hs "GroupFromProto" mir_GroupFromProto r (ChkScheme SchemeFromName ["SchemeID"])); [reflexivity | simpl; auto |].
     simpl. rewrite HS. destruct n; [reflexivity|]. simpl. simpl in Hm. rewrite Hm. reflexivity.
   Qed.
 End Decode.
